@@ -10,6 +10,7 @@ import (
 	"os"
 	"path/filepath"
 	"strings"
+	"sync"
 	"time"
 
 	"github.com/bmeg/grip/config"
@@ -51,6 +52,9 @@ type GripServer struct {
 	sources  map[string]gripper.GRIPSourceClient
 	baseDir  string
 	jStorage jobstorage.JobStorage
+	// lock guards dbs, graphMap, schemas and mappings, which request handlers
+	// read and update concurrently
+	lock sync.RWMutex
 }
 
 // NewGripServer initializes a GRPC server to connect to the graph store
@@ -141,6 +145,8 @@ func StartDriver(d config.DriverConfig, sources map[string]gripper.GRIPSourceCli
 }
 
 func (server *GripServer) getGraphDB(graph string) (gdbi.GraphDB, error) {
+	server.lock.RLock()
+	defer server.lock.RUnlock()
 	if driverName, ok := server.graphMap[graph]; ok {
 		if gdb, ok := server.dbs[driverName]; ok {
 			return gdb, nil
@@ -407,19 +413,23 @@ func (server *GripServer) Serve(pctx context.Context) error {
 	log.Infoln("HTTP proxy connecting to localhost:" + server.conf.Server.HTTPPort)
 
 	// load existing schemas from db
-	for _, gdb := range server.dbs {
+	for _, gdb := range server.graphDBs() {
 		for _, graph := range gdb.ListGraphs() {
 			if isSchema(graph) {
 				log.WithFields(log.Fields{"graph": graph}).Debug("Loading existing schema into cache")
 				schema, err := server.getGraph(graph)
 				if err == nil {
+					server.lock.Lock()
 					server.schemas[strings.TrimSuffix(graph, schemaSuffix)] = schema
+					server.lock.Unlock()
 				}
 			} else if isMapping(graph) {
 				log.WithFields(log.Fields{"graph": graph}).Debug("Loading existing mapping into cache")
 				mapping, err := server.getGraph(graph)
 				if err == nil {
+					server.lock.Lock()
 					server.mappings[strings.TrimSuffix(graph, mappingSuffix)] = mapping
+					server.lock.Unlock()
 				}
 			}
 		}
